@@ -123,6 +123,10 @@ fn copy_thread() {
 }
 
 fn main() {
+    // group `reload`, op `daemon`: the harness builds and runs the real `quandaryd` of the
+    // repository under test; it needs to know where that repository and this framework are
+    println!("cargo:rustc-env=QVH_REPO={}", repo_path());
+    println!("cargo:rustc-env=QVH_ROOT={}", PathBuf::from(std::env::var("CARGO_MANIFEST_DIR").unwrap()).parent().unwrap().display());
     copy_daemon();
     copy_thread();
 }
